@@ -89,8 +89,10 @@ def one_shape(col, n, edges, rng, variants, sample=False):
     ok = check_table(col, "call", dict(d.graph_ids.compound_priority), cp, ids, allset, rp)
     orders.append(run_order(col, "call", d, ids, g, cp, allset, rp))
     roots = [i for i in range(n) if g.in_degree(i) == 0]
+    used_targets = []
     if "target" in variants:
         for t in ([rng.randrange(n)] if variants["target"] == "one" else range(n)):
+            used_targets.append(t)
             sel = S.closure(sp, None, None, [t])
             ex = d.executor(target_nodes=[ids[t]])
             check_table(col, "executor_target", dict(ex.graph.compound_priority), cp, ids, sel, rp)
@@ -129,6 +131,40 @@ def one_shape(col, n, edges, rng, variants, sample=False):
         cp2 = S.cp_spec(sp2)
         check_table(col, "after_config_from_dict", dict(d.graph_ids.compound_priority), cp2, ids, allset, rp)
         orders.append(run_order(col, "after_config_from_dict", d, ids, g, cp2, allset, rp))
+        # executors created AFTER the reconfiguration, with a selection that was already used before it
+        for t in used_targets[:2]:
+            sel = S.closure(sp, None, None, [t])
+            ex = d.executor(target_nodes=[ids[t]])
+            check_table(col, "executor_target_after_config_from_dict", dict(ex.graph.compound_priority), cp2, ids, sel, rp)
+            orders.append(run_order(col, "executor_target_after_config_from_dict", ex, ids, g, cp2, sel, rp))
+        ex = d.executor()
+        orders.append(run_order(col, "executor_whole_after_config_from_dict", ex, ids, g, cp2, allset, rp))
+        cp = cp2
+    if "retry" in variants and n >= 2:
+        # an executor whose first run fails is either refused or re-run from scratch - with the same priorities
+        from tawazi.errors import TawaziUsageError
+
+        f = rng.randrange(n)
+        ex = d.executor()
+        probes.State.faults = {ids[f]}
+        try:
+            B.reset_log()
+            r1 = probes.run_op("executor_failing_run", lambda: ex())
+        finally:
+            probes.State.faults = set()
+        if r1[0] != "ok":
+            B.reset_log()
+            r2 = probes.run_op("executor_retry", lambda: ex())
+            order = [e["node"] for e in B.snapshot() if e["kind"] == "FENTER"]
+            col.counters["cp_executor_retries"] += 1
+            if r2[0] == "ok":
+                exp = [ids[i] for i in greedy_order(g, cp, allset)]
+                col.counters["order_checks"] += 1
+                if order != exp:
+                    col.violation("C07", "order_not_the_unique_greedy_order(executor_retry_after_failure)",
+                                  {"observed": order, "predicted": exp, "failed_first_at": ids[f]}, rp)
+            elif not isinstance(r2[1], TawaziUsageError):
+                col.counters["cp_executor_retry_raised_other"] += 1
     if "debug" in variants and n >= 2:
         debug_variant(col, n, edges, prios, rng, rp)
     h = "%d:%s:%s" % (n, sorted(edges), prios)
